@@ -54,6 +54,9 @@ func c02Envelopes() []c02Env {
 		// a raw tool handler whose result cannot be encoded (a NaN in its structured content): the call is
 		// still owed exactly one response
 		{name: "tools/call(unencodable result)", method: "tools/call", params: `{"name":"nan","arguments":{}}`, anyClass: true},
+		{name: "initialize(params wrong type)", method: "initialize", params: "5", want: -32602},
+		{name: "initialize(protocolVersion wrong type)", method: "initialize", params: `{"protocolVersion":5,"capabilities":{},"clientInfo":{"name":"c","version":"1"}}`, want: -32602},
+		{name: "initialize(params null)", method: "initialize", params: "null", want: -32600},
 		{name: "unknown/x", method: "unknown/x", params: "{}", want: -32601},
 		{name: "empty method", method: "", params: "{}", want: -32601},
 		{name: "initialized with id", method: "notifications/initialized", params: "{}", want: -32600},
